@@ -6,8 +6,8 @@
      src/HttpHdrRange.cc        HttpHdrRange::isComplex, firstOffset, lowestOffset, offsetLimitExceeded,
                                 HttpHdrRangeIter::currentSpec / updateSpec / debt
                                 (parseInit / canonize are RangeModel.v, property C28)
-     src/client_side_request.cc ClientHttpRequest::prepPartialResponseGeneration; the Range part of
-                                clientInterpretRequestHeaders (readBuffer.offset = lowestOffset(0))
+     src/client_side_request.cc ClientHttpRequest::prepPartialResponseGeneration (lowestOffset(0), which
+                                clientInterpretRequestHeaders stores in readBuffer.offset, is modelled for the unit tie)
      src/client_side_reply.cc   clientReplyContext::processReplyAccessResult (first body buffer handed to the
                                 client stream), pushStreamData's offset contract, replyStatus/checkTransferDone
                                 (out.offset >= body size)
@@ -286,13 +286,10 @@ Fixpoint pull_loop (e : renv) (obj : bytes) (chunks : list N) (s : riter) (acc :
         if fin then RDone (acc ++ out) (it_bad s3) else pull_loop e obj ks s3 (acc ++ out)
   end.
 
-(* the first body buffer, handed over together with the reply headers (processReplyAccessResult):
-   bs body bytes were read from offset 0; if readBuffer.offset (= roff, set from lowestOffset(0) while the request
-   still had its Range) is positive the buffer is advanced by it, but the buffer's own offset stays 0 *)
-Definition first_buffer (obj : bytes) (roff bs : Z) : bytes :=
-  if 0 <? roff then
-    if bs <? roff then [] else rr_slice obj roff (bs - roff)
-  else rr_slice obj 0 bs.
+(* the first body buffer, handed over together with the reply headers (processReplyAccessResult): the bs body
+   bytes that were read from offset 0, as they are, at offset 0.  (readBuffer.offset, set from lowestOffset(0) by
+   clientInterpretRequestHeaders, is reset there and no longer moves the buffer -- /repo 414e85a.) *)
+Definition first_buffer (obj : bytes) (bs : Z) : bytes := rr_slice obj 0 bs.
 
 Definition first_read_size (k0 : N) (clen : Z) : Z := Z.min (Z.min (Z.of_N k0) (Z.of_N rr_reqbuf_sz)) clen.
 
@@ -380,35 +377,34 @@ Definition multipart_ctype (bnd : bytes) : bytes :=
   [109;117;108;116;105;112;97;114;116;47;98;121;116;101;114;97;110;103;101;115;59;32;98;111;117;110;100;97;114;121;61;34]%N
   ++ bnd ++ [34]%N.
 
-Definition plain_output (i : rinput) (roff : Z) : routput :=
+Definition plain_output (i : rinput) : routput :=
   let clen := zlen (i_obj i) in
-  let data0 := first_buffer (i_obj i) roff (first_read_size (i_k0 i) clen) in
+  let data0 := first_buffer (i_obj i) (first_read_size (i_k0 i) clen) in
   mkOut 200 clen None (i_ctype i) (run_plain (i_obj i) data0 (i_chunks i)).
 
 Definition reply_run (i : rinput) : routput :=
   let clen := zlen (i_obj i) in
   match i_range i with
-  | None => plain_output i 0
+  | None => plain_output i
   | Some value =>
     match fst (range_parse value) with
-    | None => plain_output i 0                                   (* getRange() == nullptr *)
+    | None => plain_output i                                     (* getRange() == nullptr *)
     | Some raw =>
         (* miss: httpBuildRequestHeader drops a multipart Range it does not handle itself *)
         let we_do_ranges := negb (offset_limit_exceeded raw (i_limit i)) in
-        if negb (i_hit i) && negb we_do_ranges && (1 <? Z.of_nat (length raw)) then plain_output i 0
+        if negb (i_hit i) && negb we_do_ranges && (1 <? Z.of_nat (length raw)) then plain_output i
         else
-          let roff := lowest_offset 0 raw in                     (* node->readBuffer.offset *)
           let ifr := match i_if_range i with
                      | None => None
                      | Some v => match if_range_tag_match v (i_etag i) with Some m => Some m | None => Some false end
                      end in
           let b := mkBuild true 200 false clen clen (i_hit i) ifr (i_limit i) in
           match build_range_header b raw with
-          | VIgnore _ _ => plain_output i roff                   (* the first buffer was cut while range was set *)
+          | VIgnore _ _ => plain_output i                        (* ignoreRange(): the reply goes out whole *)
           | VPartial cs =>
               let mp := (1 <? Z.of_nat (length cs)) in
               let e := mkEnv mp clen (i_ctype i) (boundary_str (i_key i)) in
-              let data0 := first_buffer (i_obj i) roff (first_read_size (i_k0 i) clen) in
+              let data0 := first_buffer (i_obj i) (first_read_size (i_k0 i) clen) in
               let '(acl, body) := run_partial e (i_obj i) cs data0 (i_chunks i) in
               mkOut 206 acl
                     (if mp then None else match cs with c :: _ => Some (cont_range_value c clen) | [] => None end)
